@@ -63,7 +63,7 @@ SPEC = dict(
                      R("c16_ws", "asan", 1, 112, "hsv", 600),
                      R("c16_ws", "asan", 2, 140, "conc", 600),
                      # valgrind memcheck lines: only memcheck reports are judged (see vf FLAVORS["vg"])
-                     R("c16_http", "vg", 1, 1000, "chunk", 1800)],
+                     R("c16_http", "vg", 1, 1000, "chunk", 150)],
                floor={"http_emitted_request_heads_of_exactly_buffer_size": 3, "@class:emit-head/request/*": 30, "chunk_splits": 3000000, "chunk_rule_rejected": 8000, "chunk_valid_equal": 8000,
                       "http_server_exchanges": 60000, "http_server_malformed": 400, "http_server_model_equal": 500,
                       "http_client_exchanges": 60000, "http_client_malformed": 400, "http_client_model_equal": 600,
